@@ -2391,7 +2391,6 @@ class sptensor:
 
         # Find which subscripts already exist and their locations
         _, tf = tt_ismember_rows(newsubs, self.subs)
-        loc = np.where(tf >= 0)[0].astype(int)
 
         # Split into three groups for processing:
         #
@@ -2407,16 +2406,19 @@ class sptensor:
 
         # TF+1 for logical consideration because 0 is valid index
         # and -1 is our null flag
-        idxa = np.logical_and(tf + 1, newvals)[0]
-        idxb = np.logical_and(tf + 1, np.logical_not(newvals))[0]
-        idxc = np.logical_and(np.logical_not(tf + 1), newvals)[0]
+        # (one flag per new subscript: tf is a vector, newvals a column)
+        exists = tf >= 0
+        nonzero = newvals.reshape(-1) != 0
+        idxa = np.logical_and(exists, nonzero)
+        idxb = np.logical_and(exists, np.logical_not(nonzero))
+        idxc = np.logical_and(np.logical_not(exists), nonzero)
 
         # Process Group A: Changing values
         if np.sum(idxa) > 0:
             self.vals[tf[idxa]] = newvals[idxa]
         # Process Group B: Removing Values
         if np.sum(idxb) > 0:
-            removesubs = loc[idxb]
+            removesubs = tf[idxb]  # positions in self.subs
             keepsubs = np.setdiff1d(range(0, self.nnz), removesubs)
             self.subs = self.subs[keepsubs, :]
             self.vals = self.vals[keepsubs]
@@ -2433,7 +2435,7 @@ class sptensor:
         newshape = []
         for n, dim in enumerate(self.shape):
             smax = max(newsubs[:, n] + 1)
-            newshape.append(max(dim, smax))
+            newshape.append(int(max(dim, smax)))
         self.shape = tuple(newshape)
 
     def _set_subtensor(self, key, value):  # noqa: PLR0912, PLR0915
